@@ -623,6 +623,61 @@ pub fn strategy() -> BoxedStrategy<PairCase> {
         .boxed()
 }
 
+/// Resume under pressure: a QoS 2 exchange is driven by hand into its second phase (PUBREC received, PUBREL possibly
+/// sent), the transport is lost there, and the tail after the resume is dominated by further QoS>0 publishes from the same
+/// side and single-frame deliveries - the region where the flow-control window, the awaited sets and the store of a
+/// resumed session have to agree with what the peer sees. Same interpreter and oracle as the random schedules.
+pub fn pressure_strategy() -> BoxedStrategy<PairCase> {
+    let tail_op = |x: bool| {
+        let d = |to_server: bool| Just(POp::Deliver { to_server, how: How::ToFrameEnd });
+        prop_oneof![
+            6 => (1u8..=2, 0u8..3, 0u8..3).prop_map(move |(qos, topic, plen)| POp::Publish { from_client: x, qos, topic, alias: AliasMode::None, plen }),
+            1 => (0u8..=2, 0u8..3).prop_map(move |(qos, topic)| POp::Publish { from_client: !x, qos, topic, alias: AliasMode::None, plen: 0 }),
+            4 => d(true),
+            4 => d(false),
+            1 => any::<bool>().prop_map(|to_server| POp::Deliver { to_server, how: How::All }),
+            3 => (any::<bool>(), 0u8..2).prop_map(|(client, n)| POp::AppFlush { client, n }),
+            1 => (any::<u16>(), any::<u16>()).prop_map(|(keep_c2s, keep_s2c)| POp::Loss { keep_c2s, keep_s2c }),
+        ]
+    };
+    (cfg_strategy(), any::<bool>(), 0u8..4, prop_oneof![Just(0u16), any::<u16>()], prop_oneof![Just(0u16), any::<u16>()], 0u8..3)
+        .prop_flat_map(move |(mut cfg, x, depth, kc, ks, rmsel)| {
+            // the receiver of X's publishes announces a small Receive Maximum in most cases (v5.0 only has one)
+            if rmsel > 0 {
+                let rm = Some(rmsel as u16);
+                if x {
+                    cfg.s_rm = rm;
+                } else {
+                    cfg.c_rm = rm;
+                }
+            }
+            proptest::collection::vec(tail_op(x), 4..26).prop_map(move |tail| {
+                let d = |to_server: bool| POp::Deliver { to_server, how: How::ToFrameEnd };
+                let fl = |client: bool| POp::AppFlush { client, n: 0 };
+                // handshake, one QoS 2 publish from X, PUBLISH -> Y, PUBREC -> X, [PUBREL -> Y], [PUBCOMP queued]
+                let mut ops = vec![d(true), d(false), POp::Publish { from_client: x, qos: 2, topic: 0, alias: AliasMode::None, plen: 0 }, d(x), fl(!x)];
+                if depth >= 1 {
+                    ops.push(d(!x));
+                    ops.push(fl(x));
+                }
+                if depth >= 2 {
+                    ops.push(d(x));
+                    ops.push(fl(!x));
+                }
+                if depth >= 3 {
+                    // a second message enters before the loss
+                    ops.push(POp::Publish { from_client: x, qos: 1, topic: 1, alias: AliasMode::None, plen: 1 });
+                }
+                ops.push(POp::Loss { keep_c2s: kc, keep_s2c: ks });
+                ops.push(d(true));
+                ops.push(d(false));
+                ops.extend(tail.clone());
+                PairCase { cfg, ops }
+            })
+        })
+        .boxed()
+}
+
 /// Systematic single-loss enumeration: one fixed tiny workload, the loss inserted at every op position with every
 /// byte cut of both queues.
 #[derive(Clone, Debug, Serialize, Deserialize)]
@@ -707,12 +762,15 @@ pub fn run(ctx: &Ctx) -> Report {
     let mut rep = Report::new(
         "a Connection<Client> and a Connection<Server> exchange the bytes each requests to send through two FIFO byte queues; case = configuration (Receive Maximum, Topic Alias Maximum incl. 0, Maximum Packet Size, keep-alive, automatic responses and alias options per side, both versions, u16/u32 ids; identical on every resume) \
          + schedule of publishes QoS0/1/2 from both sides with/without manual aliases, subscribe/unsubscribe, ping, deliveries of 1-3 bytes / one frame / everything per direction, and transport losses cutting both queues at arbitrary bytes followed by notify_closed and a persistent-session resume; every case ends with a loss-free drain. \
-         Oracle: no protocol error about the peer, count-bounded termination, delivery ledger per payload tag, ids/store/vacancy at quiescence. Plus a systematic sweep: for fixed tiny workloads a loss at EVERY op position with EVERY byte cut of both queues. \
+         Oracle: no protocol error about the peer, count-bounded termination, delivery ledger per payload tag, ids/store/vacancy at quiescence. Plus resume-under-pressure schedules (a QoS 2 exchange driven into its second phase, a loss there, then mostly further QoS>0 publishes from the same side against a Receive Maximum of 1 or 2 and single-frame deliveries). Plus a systematic sweep: for fixed tiny workloads a loss at EVERY op position with EVERY byte cut of both queues. \
          non-trivial = at least one QoS>0 message crossed; classes report loss mid-frame, loss between PUBREC and PUBCOMP, resume with non-empty store, alias in use, Receive Maximum 1",
     );
     let n = ctx.tier.pick(400_000, 3_000_000);
     let (st, v) = search(ctx, "c01.pair", n, strategy, run_case);
     rep.absorb("random_schedules", st, v, false);
+    let n2 = ctx.tier.pick(150_000, 1_000_000);
+    let (st, v) = search(ctx, "c01.pressure", n2, pressure_strategy, run_case);
+    rep.absorb("resume_in_second_phase_then_publish_pressure", st, v, false);
     let mut sweeps = Vec::new();
     for (cfg, w) in sweep_workloads() {
         let positions: Vec<usize> = if ctx.tier == Tier::Quick { (2..w.len()).step_by(2).collect() } else { (0..=w.len()).collect() };
@@ -732,7 +790,7 @@ pub fn run(ctx: &Ctx) -> Report {
 pub fn replay(check: &str, case: &serde_json::Value) -> Option<R> {
     let mut st = Stats::default();
     match check {
-        "c01.pair" => {
+        "c01.pair" | "c01.pressure" => {
             let c: PairCase = serde_json::from_value(case.clone()).ok()?;
             Some(run_case(&c, &mut st))
         }
